@@ -958,7 +958,7 @@ func EqualIssSpec(got, want []Iss) bool {
 	used := make([]bool, len(g))
 	// exact matches first
 	for i := range w {
-		if w[i].Code == "*" {
+		if w[i].Code == "*" || w[i].Dtype == "*" {
 			continue
 		}
 		for j := range g {
@@ -979,7 +979,7 @@ func EqualIssSpec(got, want []Iss) bool {
 				continue
 			}
 			codeOK := w[i].Code == "*" || g[j].Code == w[i].Code
-			typeOK := g[j].Dtype == w[i].Dtype || (g[j].Dtype == "ptr" && (w[i].Code == "not_nil" || w[i].Code == "*"))
+			typeOK := w[i].Dtype == "*" || g[j].Dtype == w[i].Dtype || (g[j].Dtype == "ptr" && (w[i].Code == "not_nil" || w[i].Code == "*"))
 			if codeOK && typeOK {
 				used[j], ok = true, true
 				break
